@@ -63,6 +63,8 @@ struct CaseSpec {
 	ops: Vec<Op>,
 	misbehave: Misbehave,
 	delays: bool,
+	/// the transport's send future completes only some time after the peer could already read (and answer) the bytes
+	linger_ms: u64,
 	/// real-time mode (S / TSan): quiescence is approximated by real idle waits, "never completes" is not judged
 	real_time: bool,
 }
@@ -91,7 +93,8 @@ fn gen_case(seed: u64, real_time: bool) -> CaseSpec {
 			_ => Misbehave::IncompleteBatch,
 		}
 	};
-	CaseSpec { seed, string_ids: r.chance(1, 3), ops, misbehave, delays: r.chance(3, 4), real_time }
+	let linger_ms = if r.chance(1, 3) { 1 + r.below(6) } else { 0 };
+	CaseSpec { seed, string_ids: r.chance(1, 3), ops, misbehave, delays: r.chance(3, 4), linger_ms, real_time }
 }
 
 /// What the script still owes the client.
@@ -120,6 +123,9 @@ async fn run_case(spec: &CaseSpec) -> CaseOut {
 		install_thread_delay_hook(spec.seed, 70, 8);
 	}
 	let (client, mut srv) = client(ClientCfg { string_ids: spec.string_ids, ..Default::default() });
+	if spec.linger_ms > 0 {
+		*srv.ctl.linger_after_send.lock().unwrap() = Some(Duration::from_millis(spec.linger_ms));
+	}
 	let idle = if spec.real_time { Duration::from_millis(400) } else { Duration::from_secs(30) };
 
 	// start the operations at seeded (virtual) instants
@@ -327,9 +333,16 @@ async fn run_case(spec: &CaseSpec) -> CaseOut {
 				for (id, _) in &entries {
 					outstanding.remove(&id.to_string());
 				}
-				// notifications may ride in the same array
+				// notifications may ride in the same array: plain ones, and ones for subscriptions of this history (whose
+				// streams may be unread, full or already dropped by then)
 				if r.chance(1, 4) {
 					parts.insert(r.usize(parts.len() + 1), plain_notif("some_method", json!(["in-array"])));
+				}
+				if !live_subs.is_empty() && r.chance(1, 2) {
+					for _ in 0..1 + r.usize(3) {
+						let (sid, tag) = r.pick(&live_subs).clone();
+						parts.insert(r.usize(parts.len() + 1), sub_notif("m", &sid, json!({"tag": tag, "extra": true})));
+					}
 				}
 				let text = array_of(&parts);
 				out.history.push(format!("server -> {text}"));
@@ -490,7 +503,7 @@ async fn run_case(spec: &CaseSpec) -> CaseOut {
 
 fn witness(spec: &CaseSpec, o: &CaseOut) -> Value {
 	json!({"seed": spec.seed, "string_ids": spec.string_ids, "ops": format!("{:?}", spec.ops), "misbehave": format!("{:?}", spec.misbehave),
-		"delays": spec.delays, "history": o.history, "schedule_trace": o.trace})
+		"delays": spec.delays, "linger_ms": spec.linger_ms, "history": o.history, "schedule_trace": o.trace})
 }
 
 fn record(spec: &CaseSpec, o: CaseOut, ev: &mut Evidence, violations: &mut Vec<Violation>) {
